@@ -35,7 +35,7 @@ ASSUMPTIONS = [
 I = {"base": "integer", "kind": None}
 PIECES = ["<", ">", "&", "&amp;", "<b>", "</b>", "<script>alert(1)</script>", "a  b", "   ", "\\", "\\n", "*x*", "_y_", "`c`",
           "|", "[[m]]", "]]", "Q", "O", "<!--", "-->", "%s", "{{ x }}", "{% raw %}", "$$", "\\(", "#", "<td>", "</tr>",
-          "</table>", "<i", "a<b", "1 < 2", "<a href='x'>", "&lt;", "&#60;"]
+          "</table>", "<i", "a<b", "1 < 2", "<a href='x'>", "&lt;", "&#60;", "C:\\Users\\ford\\docs", "\\\\\\", "a\\b\\c\\d"]
 RELEXPR = ["merge(1, 2, lo < hi)", "merge(3, 4, lo<hi .and. hi>lo)", "merge(1, 2, lo <= hi)", "merge(2, 5, lo/=hi)",
            "max(lo, hi)", "merge(1, 2, lo<hi)"]
 
@@ -77,8 +77,14 @@ def gen_model(ch: Chooser, benign: bool):
         return t
 
     def charvar(name, where):
-        form = ch.choice(["param", "init", "concat"])
+        form = ch.choice(["param", "init", "concat", "array"])
         d = _var(name, S("*") if form == "param" else S("200"))
+        if form == "array":
+            d["dimattr"] = "(2)"
+            d["ents"][0]["init"] = "[character(len=200) :: " + lit() + ", " + lit() + "]"
+            if where == "component":
+                d["ts"] = S("200")
+            return d
         if form == "param":
             d["parameter"] = True
             d["ents"][0]["init"] = lit()
